@@ -58,7 +58,9 @@ def variants(rng, tier):
     out.append(("unsupported", "-lh2-", [RG.G("file", b"u", data=b"abc", method=b"-lh2-"), RG.G("file", b"v", data=b"ok")]))
     # multi-member mixes: verdicts are per member, exit status is the disjunction
     for i in range(6 if tier == "quick" else 60):
-        out.append(("mix", "mix", RG.random_archive(rng, nmax=5)))
+        # (members from MacLHA archives hand out only a part of the stream the verdict is about: the read pass cannot
+        #  judge them; their verdicts are checked by Trace_Mac below, which gets the stored stream from the generator)
+        out.append(("mix", "mix", RG.random_archive(rng, nmax=5, with_mac=False)))
     return out
 
 
@@ -125,13 +127,13 @@ def run(tier, seed, ev):
             n = len(ms) + 1
             jobs.append("exec %s %s path default - 0 bh %s" % (gts["read"], a, ",".join(["N,A4096"] * n)))
             jobs.append("exec %s %s path default - 0 h %s" % (gts["check"], a, ",".join(["N,C"] * n)))
-            jobs.append("exec %s %s path default %s 0 h %s" % (gts["extract"], a, xd, ",".join(["N,X"] * (2 * n))))
+            jobs.append("exec %s %s path default %s 0 ho %s" % (gts["extract"], a, xd, ",".join(["N,X"] * (2 * n))))
             xd2 = os.path.join(sc, "xm%d" % i)
             os.makedirs(xd2)
             mixed = []
             for _ in range(n):
                 mixed += ["N", "R%d" % rng.choice([0, 1, 10, 64, 100000])] + [rng.choice(["C", "X"])]
-            jobs.append("exec %s %s path default %s 0 hs %s" % (gts["mixed"], a, xd2, ",".join(mixed)))
+            jobs.append("exec %s %s path default %s 0 hso %s" % (gts["mixed"], a, xd2, ",".join(mixed)))
             names = [(m.path if m.kind != "dir" else m.path.rstrip(b"/") + b"/", m.kind == "file") for m in ms]
             meta.append((a, names, cls, meth))
             ev.cls((cls, meth))
@@ -194,6 +196,8 @@ def run(tier, seed, ev):
     # the whole of stdout of `lha t | x | e` (progress bar, verdict words) and the exit status against Cli.tla
     import clicommon as CL
     viols += CL.run("C07", tier, seed, ev, 20 if tier == "quick" else 300, modes=("t", "x", "e"))
+    import maccommon
+    viols += maccommon.run("C07", tier, seed, ev)
     ev.add("traces_validated_against_impl", good)
     ev.set("archives", len(vs))
     ev.sample({"class": vs[0][0], "method": vs[0][1], "job": jobs[0][:200]})
